@@ -1,6 +1,827 @@
-(* App/GrammarProofs.v — theorems about App/Grammar.v (under construction) *)
+(* App/GrammarProofs.v — theorems about App/Grammar.v.
+   Part 1: cursor lemmas.  Part 2: the generated tables, by reflection (vm_compute over the finite tables,
+   lifted with forallb_forall).  Part 3: a header is accepted iff the bytes present are exactly what it
+   implies.  Part 4: fragments.  Part 5: iteration agrees with validation. *)
 From Dnp3V Require Import App.Grammar.
 Open Scope N_scope.
 
+Definition abytes_ok (l : list N) : Prop := Forall (fun b => b < 256) l.
+
+Lemma abytes_ok_app a b : abytes_ok (a ++ b) <-> abytes_ok a /\ abytes_ok b.
+Proof. unfold abytes_ok. apply Forall_app. Qed.
+
+(* ---------------------------------------------------------------------------------------------- *)
+(* Part 1: cursor                                                                                  *)
+
 Lemma atake_zero l : atake l 0 = Some ([], l).
 Proof. destruct l; reflexivity. Qed.
+
+Lemma atake_sound : forall l n a b, atake l n = Some (a, b) -> l = a ++ b /\ N.of_nat (length a) = n.
+Proof.
+  induction l as [|x l IH]; intros n a b H; cbn [atake] in H.
+  - destruct (n =? 0) eqn:Hn; [|discriminate]. apply N.eqb_eq in Hn. inversion H; subst. split; reflexivity.
+  - destruct (n =? 0) eqn:Hn.
+    + apply N.eqb_eq in Hn. inversion H; subst. split; reflexivity.
+    + apply N.eqb_neq in Hn. destruct (atake l (N.pred n)) as [[a' b']|] eqn:Ht; [|discriminate].
+      inversion H; subst. destruct (IH _ _ _ Ht) as [Hl Hlen]. subst l. split; [reflexivity|].
+      cbn [length]. lia.
+Qed.
+
+Lemma atake_complete : forall a b, atake (a ++ b) (N.of_nat (length a)) = Some (a, b).
+Proof.
+  induction a as [|x a IH]; intro b.
+  - cbn [app length]. apply atake_zero.
+  - cbn [app length atake]. destruct (N.of_nat (S (length a)) =? 0) eqn:Hn.
+    + apply N.eqb_eq in Hn. lia.
+    + replace (N.pred (N.of_nat (S (length a)))) with (N.of_nat (length a)) by lia. rewrite IH. reflexivity.
+Qed.
+
+Lemma atake_iff l n a b : atake l n = Some (a, b) <-> l = a ++ b /\ N.of_nat (length a) = n.
+Proof.
+  split; [apply atake_sound|]. intros [Hl Hn]. subst. apply atake_complete.
+Qed.
+
+Lemma atake_none l n : atake l n = None <-> N.of_nat (length l) < n.
+Proof.
+  revert n. induction l as [|x l IH]; intro n; cbn [atake length].
+  - destruct (n =? 0) eqn:Hn; [apply N.eqb_eq in Hn|apply N.eqb_neq in Hn]; split; intro H; try discriminate; try lia; reflexivity.
+  - destruct (n =? 0) eqn:Hn; [apply N.eqb_eq in Hn|apply N.eqb_neq in Hn].
+    + split; intro H; [discriminate|lia].
+    + destruct (atake l (N.pred n)) as [[a b]|] eqn:Ht.
+      * split; intro H; [discriminate|]. apply atake_sound in Ht. destruct Ht as [Hl Hlen]. subst l.
+        rewrite app_length in H. lia.
+      * apply IH in Ht. split; intro H; [lia|reflexivity].
+Qed.
+
+(* enough bytes: the read succeeds *)
+Lemma atake_enough l n : n <= N.of_nat (length l) -> exists a b, atake l n = Some (a, b).
+Proof.
+  intro H. destruct (atake l n) as [[a b]|] eqn:Ht; [eauto|]. apply atake_none in Ht. lia.
+Qed.
+
+Lemma ale_bytes_length k x : length (ale_bytes k x) = k.
+Proof. revert x; induction k as [|k IH]; intro x; cbn [ale_bytes length]; [reflexivity|]. rewrite IH. reflexivity. Qed.
+
+Lemma ale_bytes_ok k x : abytes_ok (ale_bytes k x).
+Proof.
+  revert x; induction k as [|k IH]; intro x; cbn [ale_bytes]; [constructor|].
+  constructor; [|apply IH]. apply N.mod_lt. lia.
+Qed.
+
+Lemma ale_val_bytes k : forall x, x < 256 ^ N.of_nat k -> ale_val (ale_bytes k x) = x.
+Proof.
+  induction k as [|k IH]; intros x Hx.
+  - cbn [ale_bytes ale_val]. change (256 ^ N.of_nat 0) with 1 in Hx. lia.
+  - cbn [ale_bytes ale_val]. rewrite IH.
+    + rewrite (N.div_mod' x 256) at 3. lia.
+    + replace (N.of_nat (S k)) with (N.succ (N.of_nat k)) in Hx by lia. rewrite N.pow_succ_r' in Hx.
+      apply N.div_lt_upper_bound; lia.
+Qed.
+
+Lemma ale_bytes_val : forall bs, abytes_ok bs -> ale_bytes (length bs) (ale_val bs) = bs.
+Proof.
+  induction bs as [|b bs IH]; intro H; [reflexivity|].
+  inversion H as [|? ? Hb Hbs]; subst. cbn [length ale_bytes ale_val]. f_equal.
+  - generalize (ale_val bs). intro y. lia.
+  - replace ((b + 256 * ale_val bs) / 256) with (ale_val bs) by (generalize (ale_val bs); intro y; lia).
+    apply IH; assumption.
+Qed.
+
+Lemma ale_val_bound : forall bs, abytes_ok bs -> ale_val bs < 256 ^ N.of_nat (length bs).
+Proof.
+  induction bs as [|b bs IH]; intro H; cbn [ale_val length].
+  - change (256 ^ N.of_nat 0) with 1. lia.
+  - inversion H as [|? ? Hb Hbs]; subst. specialize (IH Hbs).
+    replace (N.of_nat (S (length bs))) with (N.succ (N.of_nat (length bs))) by lia. rewrite N.pow_succ_r'. lia.
+Qed.
+
+Fixpoint asum (ws : list N) : N := match ws with [] => 0 | w :: r => w + asum r end.
+
+(* T::read of T::write *)
+Lemma aread_fields_write : forall ws xs rest, Forall2 (fun w x => x < 256 ^ w) ws xs ->
+  aread_fields ws (awrite_fields ws xs ++ rest) = Some (xs, rest).
+Proof.
+  induction ws as [|w ws IH]; intros xs rest H; inversion H as [|? x ? xs' Hx Hxs]; subst; [reflexivity|].
+  cbn [awrite_fields aread_fields]. unfold aread_field. rewrite <- app_assoc.
+  assert (Ht : atake (ale_bytes (N.to_nat w) x ++ awrite_fields ws xs' ++ rest) w
+               = Some (ale_bytes (N.to_nat w) x, awrite_fields ws xs' ++ rest)).
+  { apply atake_iff. split; [reflexivity|]. rewrite ale_bytes_length. lia. }
+  rewrite Ht. rewrite ale_val_bytes by (rewrite N2Nat.id; assumption).
+  rewrite IH by assumption. reflexivity.
+Qed.
+
+(* T::write of T::read gives the bytes back, and T::read consumes exactly the sum of the widths *)
+Lemma aread_fields_sound : forall ws l xs r, aread_fields ws l = Some (xs, r) -> abytes_ok l ->
+  l = awrite_fields ws xs ++ r /\ N.of_nat (length (awrite_fields ws xs)) = asum ws
+  /\ Forall2 (fun w x => x < 256 ^ w) ws xs.
+Proof.
+  induction ws as [|w ws IH]; intros l xs r H Hl; cbn [aread_fields] in H.
+  - inversion H; subst. repeat split; constructor.
+  - unfold aread_field in H. destruct (atake l w) as [[bs l1]|] eqn:Ht; [|discriminate].
+    destruct (aread_fields ws l1) as [[xs' r']|] eqn:Hr; [|discriminate]. inversion H; subst.
+    apply atake_sound in Ht. destruct Ht as [Hl1 Hw]. subst l. apply abytes_ok_app in Hl. destruct Hl as [Hbs Hl1].
+    destruct (IH _ _ _ Hr Hl1) as [E [Hlen HF]]. subst l1.
+    cbn [awrite_fields asum]. replace (N.to_nat w) with (length bs) by lia.
+    rewrite ale_bytes_val by assumption. rewrite <- app_assoc. split; [reflexivity|]. split.
+    + rewrite app_length. lia.
+    + constructor; [|assumption]. rewrite <- Hw. apply ale_val_bound; assumption.
+Qed.
+
+Lemma aread_fields_enough : forall ws l, asum ws <= N.of_nat (length l) -> exists xs r, aread_fields ws l = Some (xs, r).
+Proof.
+  induction ws as [|w ws IH]; intros l H; cbn [aread_fields]; [eauto|].
+  cbn [asum] in H. unfold aread_field. destruct (atake_enough l w) as [a [b Ht]]; [lia|]. rewrite Ht.
+  apply atake_sound in Ht. destruct Ht as [Hl Hw]. subst l. rewrite app_length in H.
+  destruct (IH b) as [xs [r Hr]]; [lia|]. rewrite Hr. eauto.
+Qed.
+
+Lemma aread_fields_short : forall ws l, N.of_nat (length l) < asum ws -> aread_fields ws l = None.
+Proof.
+  induction ws as [|w ws IH]; intros l H; cbn [aread_fields asum] in *; [lia|].
+  unfold aread_field. destruct (atake l w) as [[a b]|] eqn:Ht; [|reflexivity].
+  apply atake_sound in Ht. destruct Ht as [Hl Hw]. subst l. rewrite app_length in H.
+  rewrite IH by lia. reflexivity.
+Qed.
+
+(* ---------------------------------------------------------------------------------------------- *)
+(* Part 2: the generated tables                                                                    *)
+
+Definition fkind_eqb (a b : fkind) : bool :=
+  match a, b with
+  | FU8, FU8 | FU16, FU16 | FU32, FU32 | FU48, FU48 | FI16, FI16 | FI32, FI32 | FF32, FF32 | FF64, FF64 => true
+  | _, _ => false
+  end.
+
+Lemma fkind_eqb_eq a b : fkind_eqb a b = true -> a = b.
+Proof. destruct a, b; cbn; intro H; try reflexivity; discriminate. Qed.
+
+Fixpoint afields_eqb (a b : list (N * fkind)) : bool :=
+  match a, b with
+  | [], [] => true
+  | (i, k) :: a', (j, m) :: b' => (i =? j) && fkind_eqb k m && afields_eqb a' b'
+  | _, _ => false
+  end.
+
+Lemma afields_eqb_eq : forall a b, afields_eqb a b = true -> a = b.
+Proof.
+  induction a as [|[i k] a IH]; intros [|[j m] b] H; cbn [afields_eqb] in H; try discriminate; [reflexivity|].
+  apply andb_prop in H. destruct H as [H H3]. apply andb_prop in H. destruct H as [H1 H2].
+  apply N.eqb_eq in H1. apply fkind_eqb_eq in H2. subst. f_equal. apply IH; assumption.
+Qed.
+
+(* P1 size_is_sum_of_fields: SIZE of every fixed-size variation is the sum of the widths its `read` consumes *)
+Theorem size_is_sum_of_fields : forall fi, In fi fixed_table -> fi_size fi = asum (awidths fi).
+Proof.
+  assert (H : forallb (fun fi => fi_size fi =? asum (awidths fi)) fixed_table = true) by (vm_compute; reflexivity).
+  intros fi Hin. rewrite forallb_forall in H. apply N.eqb_eq. apply H. assumption.
+Qed.
+
+(* P1 read_write_same_order: `read` and `write` of every fixed-size variation visit the same fields, with
+   the same wire kinds, in the same order *)
+Theorem read_write_same_order : forall fi, In fi fixed_table -> fi_read fi = fi_write fi.
+Proof.
+  assert (H : forallb (fun fi => afields_eqb (fi_read fi) (fi_write fi)) fixed_table = true) by (vm_compute; reflexivity).
+  intros fi Hin. rewrite forallb_forall in H. apply afields_eqb_eq. apply H. assumption.
+Qed.
+
+Lemma awidths_same fi : In fi fixed_table -> awidths_w fi = awidths fi.
+Proof. intro H. unfold awidths_w, awidths. rewrite (read_write_same_order fi H). reflexivity. Qed.
+
+(* every size is positive, every field is read exactly once (field ids are 0 .. n-1 in some order is not
+   needed here: the translator checks that `read` sets every declared field exactly once) *)
+Lemma fixed_size_positive : forall fi, In fi fixed_table -> 0 < fi_size fi.
+Proof.
+  assert (H : forallb (fun fi => 0 <? fi_size fi) fixed_table = true) by (vm_compute; reflexivity).
+  intros fi Hin. rewrite forallb_forall in H. apply N.ltb_lt. apply H. assumption.
+Qed.
+
+Lemma afixed_in g v fi : afixed g v = Some fi -> In fi fixed_table /\ fi_g fi = g /\ fi_v fi = v.
+Proof.
+  unfold afixed. intro H. apply find_some in H. destruct H as [Hin Hb].
+  apply andb_prop in Hb. destruct Hb as [H1 H2]. apply N.eqb_eq in H1. apply N.eqb_eq in H2. auto.
+Qed.
+
+(* P1 fixed_codec_round_trip: for every generated fixed-size variation, writing any field values (each
+   within the width of its field) and reading them back gives the same values and consumes exactly the
+   bytes written; conversely reading any bytes and writing the result gives the bytes back *)
+Theorem fixed_codec_round_trip : forall fi xs rest, In fi fixed_table ->
+  Forall2 (fun w x => x < 256 ^ w) (awidths_w fi) xs ->
+  aread_fields (awidths fi) (awrite_fields (awidths_w fi) xs ++ rest) = Some (xs, rest)
+  /\ N.of_nat (length (awrite_fields (awidths_w fi) xs)) = fi_size fi.
+Proof.
+  intros fi xs rest Hin HF. rewrite (awidths_same fi Hin) in *. split.
+  - apply aread_fields_write; assumption.
+  - rewrite (size_is_sum_of_fields fi Hin).
+    destruct (aread_fields_sound (awidths fi) (awrite_fields (awidths fi) xs ++ []) xs []) as [_ [Hlen _]].
+    + apply aread_fields_write; assumption.
+    + apply abytes_ok_app. split; [|constructor].
+      clear Hin. revert xs HF. generalize (awidths fi). induction l as [|w ws IH]; intros xs HF; inversion HF; subst; cbn [awrite_fields]; [constructor|].
+      apply abytes_ok_app. split; [apply ale_bytes_ok|apply IH; assumption].
+    + assumption.
+Qed.
+
+Theorem fixed_codec_round_trip_bytes : forall fi l xs r, In fi fixed_table -> abytes_ok l ->
+  aread_fields (awidths fi) l = Some (xs, r) -> l = awrite_fields (awidths_w fi) xs ++ r.
+Proof.
+  intros fi l xs r Hin Hl H. rewrite (awidths_same fi Hin).
+  destruct (aread_fields_sound _ _ _ _ H Hl) as [E _]. exact E.
+Qed.
+
+(* the qualifier tables only name kinds the walker knows how to size: DFixed entries have a SIZE *)
+Definition aqt_fixed_ok (t : qtable) : bool :=
+  forallb (fun e => match snd e with
+                    | DFixed => match snd (fst e) with
+                                | PExact v => match afixed (fst (fst e)) v with Some _ => true | None => false end
+                                | PAny => false
+                                end
+                    | _ => true
+                    end) t.
+
+Lemma qtables_fixed_ok :
+  aqt_fixed_ok qt_count = true /\ aqt_fixed_ok qt_range = true /\ aqt_fixed_ok qt_prefix = true.
+Proof. vm_compute. repeat split; reflexivity. Qed.
+
+Lemma aqkind_fixed_has_size t g v : aqt_fixed_ok t = true -> aqkind t g v = Some DFixed -> exists fi, afixed g v = Some fi.
+Proof.
+  unfold aqt_fixed_ok, aqkind. intros Ht H. destruct (find (apat_matches g v) t) as [e|] eqn:Hf; [|discriminate].
+  inversion H as [Hk]. apply find_some in Hf. destruct Hf as [Hin Hm]. rewrite forallb_forall in Ht.
+  specialize (Ht e Hin). rewrite Hk in Ht. unfold apat_matches in Hm. apply andb_prop in Hm. destruct Hm as [Hg Hv].
+  apply N.eqb_eq in Hg. destruct (snd (fst e)) as [x|]; [|discriminate].
+  apply N.eqb_eq in Hv. subst. destruct (afixed (fst (fst e)) x) as [fi|]; [eauto|discriminate].
+Qed.
+
+(* ---------------------------------------------------------------------------------------------- *)
+(* Part 3: a header is accepted iff the bytes present are exactly what it implies                  *)
+
+(* the bytes of the object data a validated payload stands for *)
+Definition apayload_bytes (p : apayload) : list N :=
+  match p with
+  | PyNone => []
+  | PyBits _ _ d | PyDBits _ _ d | PyFixedRange _ _ d | PyFixedCount _ d | PyFixedPrefix _ _ d
+  | PyOctetsRange _ _ d | PyOctetsPrefix _ _ d => d
+  | PyAttr a => aa_raw a
+  | PyFree len raw _ => lo8 len :: hi8 len :: raw
+  end.
+
+(* the range / count field (and, for a prefixed attribute, its index) *)
+Definition adetail_bytes (d : ahdetails) (p : apayload) : list N :=
+  match d with
+  | HAll => []
+  | HRange8 a b => [a; b]
+  | HRange16 a b => [lo8 a; hi8 a; lo8 b; hi8 b]
+  | HCount8 c => [c]
+  | HCount16 c => [lo8 c; hi8 c]
+  | HPrefix8 c => c :: match p with PyAttr a => [aa_set a] | _ => [] end
+  | HPrefix16 c => lo8 c :: hi8 c :: match p with PyAttr a => [lo8 (aa_set a); hi8 (aa_set a)] | _ => [] end
+  | HFree c => [c]
+  end.
+
+(* the unique encoding of a parsed header: group, variation, qualifier, range or count, object data *)
+Definition aencode_header (h : aobj_header) : list N :=
+  oh_g h :: oh_v h :: aqualifier (oh_details h)
+  :: adetail_bytes (oh_details h) (oh_payload h) ++ apayload_bytes (oh_payload h).
+
+(* a device attribute is well-formed when AttrValue::parse accepts exactly its bytes, whatever follows *)
+Definition aattr_wf (a : aattribute) : Prop :=
+  forall r, aparse_attr_value (aa_raw a ++ r) = AOk (aa_value a, r).
+
+(* what a range header of (g, v) over `c` indices starting at `s` must be followed by *)
+Definition aranged_wf (o : aopts) (fc g v s c : N) (p : apayload) : Prop :=
+  match aqkind (if fc =? fc_read then qt_range_read else qt_range) g v with
+  | Some DNone => p = PyNone
+  | Some DBits => exists d, p = PyBits s c d /\ N.of_nat (length d) = aceil_div c 8
+  | Some DDoubleBits => exists d, p = PyDBits s c d /\ N.of_nat (length d) = aceil_div c 4
+  | Some DFixed => exists sz d, asize g v = Some sz /\ p = PyFixedRange s c d /\ N.of_nat (length d) = sz * c
+  | Some DOctets => (v =? 0) && negb (ao_zero_length_strings o) = false
+                    /\ exists d, p = PyOctetsRange s c d /\ N.of_nat (length d) = v * c
+  | Some DAttr => s <= 255 /\ c = 1 /\ exists a, p = PyAttr a /\ aa_set a = s /\ aa_var a = v /\ aattr_wf a
+  | Some DFree | None => False
+  end.
+
+Definition acount_wf (g v c : N) (p : apayload) : Prop :=
+  match aqkind qt_count g v with
+  | Some DNone => p = PyNone
+  | Some DFixed => exists sz d, asize g v = Some sz /\ p = PyFixedCount c d /\ N.of_nat (length d) = sz * c
+  | _ => False
+  end.
+
+Definition aprefixed_wf (o : aopts) (g v psize c : N) (p : apayload) : Prop :=
+  match aqkind qt_prefix g v with
+  | Some DFixed => exists sz d, asize g v = Some sz /\ p = PyFixedPrefix psize c d /\ N.of_nat (length d) = (psize + sz) * c
+  | Some DOctets => (v =? 0) && negb (ao_zero_length_strings o) = false
+                    /\ exists d, p = PyOctetsPrefix psize c d /\ N.of_nat (length d) = (v + psize) * c
+  | Some DAttr => c = 1 /\ exists a, p = PyAttr a /\ aa_set a <= 255 /\ aa_var a = v /\ aattr_wf a
+  | _ => False
+  end.
+
+(* the header is one the tables allow and its object data has exactly the length they demand *)
+Definition awf_header (o : aopts) (fc : N) (h : aobj_header) : Prop :=
+  let g := oh_g h in let v := oh_v h in let p := oh_payload h in
+  alookup g v = true /\
+  match oh_details h with
+  | HAll => aqkind qt_all g v <> None /\ p = PyNone
+  | HRange8 a b => a <= b /\ b < 256 /\ aranged_wf o fc g v a (b - a + 1) p
+  | HRange16 a b => a <= b /\ b < 65536 /\ aranged_wf o fc g v a (b - a + 1) p
+  | HCount8 c => c < 256 /\ acount_wf g v c p
+  | HCount16 c => c < 65536 /\ acount_wf g v c p
+  | HPrefix8 c => c < 256 /\ aprefixed_wf o g v 1 c p
+  | HPrefix16 c => c < 65536 /\ aprefixed_wf o g v 2 c p
+  | HFree c => c = 1 /\ aqkind qt_free g v = Some DFree
+               /\ exists len raw info, p = PyFree len raw info /\ len < 65536
+                  /\ N.of_nat (length raw) = len /\ aparse_free v raw = AOk (info, [])
+  end.
+
+(* ---- AttrValue::parse reads a prefix and does not look at what follows ---- *)
+
+Lemma atake_e_stable l n b r : atake_e l n = AOk (b, r) ->
+  l = b ++ r /\ forall r', atake_e (b ++ r') n = AOk (b, r').
+Proof.
+  unfold atake_e. destruct (atake l n) as [[b' r0]|] eqn:Ht; [|discriminate]. intro H; inversion H; subst.
+  apply atake_sound in Ht. destruct Ht as [Hl Hn]. split; [assumption|]. intro r'.
+  rewrite <- Hn. rewrite atake_complete. reflexivity.
+Qed.
+
+Lemma aread_n_stable w l x r : aread_n w l = AOk (x, r) ->
+  exists bs, l = bs ++ r /\ forall r', aread_n w (bs ++ r') = AOk (x, r').
+Proof.
+  unfold aread_n, aread_field. destruct (atake l w) as [[bs r0]|] eqn:Ht; [|discriminate]. intro H; inversion H; subst.
+  apply atake_sound in Ht. destruct Ht as [Hl Hn]. exists bs. split; [assumption|]. intro r'.
+  rewrite <- Hn. rewrite atake_complete. reflexivity.
+Qed.
+
+Lemma aattr_list_stable l len val r : aattr_list l len = AOk (val, r) ->
+  exists bs, l = bs ++ r /\ forall r', aattr_list (bs ++ r') len = AOk (val, r').
+Proof.
+  unfold aattr_list. destruct (negb (len mod 2 =? 0)); [discriminate|].
+  destruct (atake_e l len) as [[b r0]|e] eqn:Ht; [|discriminate]. intro H; inversion H; subst.
+  apply atake_e_stable in Ht. destruct Ht as [Hl Hs]. exists b. split; [assumption|]. intro r'. rewrite Hs. reflexivity.
+Qed.
+
+Ltac astab_take Ht :=
+  let Hl := fresh "Hl" in let Hs := fresh "Hs" in
+  apply atake_e_stable in Ht; destruct Ht as [Hl Hs];
+  eexists; split; [exact Hl|]; intro r'; rewrite Hs.
+
+Ltac astab_read Ht :=
+  let bs := fresh "bs" in let Hl := fresh "Hl" in let Hs := fresh "Hs" in
+  apply aread_n_stable in Ht; destruct Ht as [bs [Hl Hs]];
+  exists bs; split; [exact Hl|]; intro r'; rewrite Hs.
+
+Lemma aattr_payload_stable ty len l val r : aattr_payload ty len l = AOk (val, r) ->
+  exists bs, l = bs ++ r /\ forall r', aattr_payload ty len (bs ++ r') = AOk (val, r').
+Proof.
+  unfold aattr_payload.
+  destruct (ty =? attr_visible_string).
+  { destruct (atake_e l len) as [[b r0]|e] eqn:Ht; [|discriminate]. destruct (autf8 b) eqn:Hu; [|discriminate].
+    intro H; inversion H; subst. astab_take Ht. rewrite Hu. reflexivity. }
+  destruct (ty =? attr_unsigned_int).
+  { destruct ((len =? 1) || (len =? 2) || (len =? 4)); [|discriminate].
+    destruct (aread_n len l) as [[x r0]|e] eqn:Ht; [|discriminate]. intro H; inversion H; subst. astab_read Ht. reflexivity. }
+  destruct (ty =? attr_signed_int).
+  { destruct ((len =? 1) || (len =? 4)).
+    - destruct (aread_n len l) as [[x r0]|e] eqn:Ht; [|discriminate]. intro H; inversion H; subst. astab_read Ht. reflexivity.
+    - destruct (len =? 2); [|discriminate].
+      destruct (aread_n 2 l) as [[x r0]|e] eqn:Ht; [|discriminate]. intro H; inversion H; subst. astab_read Ht. reflexivity. }
+  destruct (ty =? attr_floating_point).
+  { destruct (len =? 4).
+    - destruct (aread_n 4 l) as [[x r0]|e] eqn:Ht; [|discriminate]. intro H; inversion H; subst. astab_read Ht. reflexivity.
+    - destruct (len =? 8); [|discriminate].
+      destruct (aread_n 8 l) as [[x r0]|e] eqn:Ht; [|discriminate]. intro H; inversion H; subst. astab_read Ht. reflexivity. }
+  destruct (ty =? attr_octet_string).
+  { destruct (atake_e l len) as [[b r0]|e] eqn:Ht; [|discriminate]. intro H; inversion H; subst. astab_take Ht. reflexivity. }
+  destruct (ty =? attr_bit_string).
+  { destruct (atake_e l len) as [[b r0]|e] eqn:Ht; [|discriminate]. intro H; inversion H; subst. astab_take Ht. reflexivity. }
+  destruct (ty =? attr_dnp3_time).
+  { destruct (len =? 6); [|discriminate].
+    destruct (aread_n 6 l) as [[x r0]|e] eqn:Ht; [|discriminate]. intro H; inversion H; subst. astab_read Ht. reflexivity. }
+  destruct (ty =? attr_attr_list); apply aattr_list_stable.
+Qed.
+
+Lemma aparse_attr_value_stable l val r : aparse_attr_value l = AOk (val, r) ->
+  exists raw, l = raw ++ r /\ forall r', aparse_attr_value (raw ++ r') = AOk (val, r').
+Proof.
+  unfold aparse_attr_value. destruct l as [|ty l1]; [discriminate|].
+  destruct (negb (amem ty aattr_types)) eqn:Hty; [discriminate|]. destruct l1 as [|len l2]; [discriminate|].
+  intro H. apply aattr_payload_stable in H. destruct H as [bs [Hl Hs]]. exists (ty :: len :: bs). split.
+  - cbn [app]. rewrite Hl. reflexivity.
+  - intro r'. cbn [app]. rewrite Hty. apply Hs.
+Qed.
+
+(* the raw bytes recorded by the walker are the prefix that was consumed *)
+Lemma afirstn_consumed (raw r : list N) : firstn (length (raw ++ r) - length r) (raw ++ r) = raw.
+Proof.
+  rewrite app_length. replace (length raw + length r - length r)%nat with (length raw) by lia.
+  rewrite firstn_app. rewrite Nat.sub_diag. cbn [firstn]. rewrite app_nil_r. apply firstn_all.
+Qed.
+
+(* ---- the three families ---- *)
+
+Lemma atake_o_iff l n a b : atake_o l n = AOk (a, b) <-> l = a ++ b /\ N.of_nat (length a) = n.
+Proof.
+  unfold atake_o. destruct (atake l n) as [[a' b']|] eqn:Ht.
+  - split.
+    + intro H; inversion H; subst. apply atake_sound; assumption.
+    + intros [Hl Hn]. assert (Ht' : atake l n = Some (a, b)) by (apply atake_iff; auto). congruence.
+  - split; [discriminate|]. intros [Hl Hn]. assert (Ht' : atake l n = Some (a, b)) by (apply atake_iff; auto). congruence.
+Qed.
+
+Ltac atake_fwd Ht := apply atake_o_iff in Ht; destruct Ht as [? ?]; subst.
+
+Lemma aparse_ranged_iff o fc g v q s c l p r :
+  aparse_ranged o fc g v q s c l = AOk (p, r) <-> l = apayload_bytes p ++ r /\ aranged_wf o fc g v s c p.
+Proof.
+  unfold aparse_ranged, aranged_wf.
+  destruct (aqkind (if fc =? fc_read then qt_range_read else qt_range) g v) as [[| | | | | |]|].
+  - (* DNone *) split.
+    + intro H; inversion H; subst. split; reflexivity.
+    + intros [Hl Hp]. subst. reflexivity.
+  - (* DBits *) split.
+    + destruct (atake_o l (aceil_div c 8)) as [[d r0]|e] eqn:Ht; [|discriminate]. intro H; inversion H; subst.
+      atake_fwd Ht. split; [reflexivity|]. eauto.
+    + intros [Hl [d [Hp Hn]]]. subst. cbn [apayload_bytes].
+      assert (Ht : atake_o (d ++ r) (aceil_div c 8) = AOk (d, r)) by (apply atake_o_iff; auto). rewrite Ht. reflexivity.
+  - (* DDoubleBits *) split.
+    + destruct (atake_o l (aceil_div c 4)) as [[d r0]|e] eqn:Ht; [|discriminate]. intro H; inversion H; subst.
+      atake_fwd Ht. split; [reflexivity|]. eauto.
+    + intros [Hl [d [Hp Hn]]]. subst. cbn [apayload_bytes].
+      assert (Ht : atake_o (d ++ r) (aceil_div c 4) = AOk (d, r)) by (apply atake_o_iff; auto). rewrite Ht. reflexivity.
+  - (* DFixed *) destruct (asize g v) as [sz|].
+    + split.
+      * destruct (atake_o l (sz * c)) as [[d r0]|e] eqn:Ht; [|discriminate]. intro H; inversion H; subst.
+        atake_fwd Ht. split; [reflexivity|]. eauto.
+      * intros [Hl [sz' [d [Hs [Hp Hn]]]]]. inversion Hs; subst. cbn [apayload_bytes].
+        assert (Ht : atake_o (d ++ r) (sz' * c) = AOk (d, r)) by (apply atake_o_iff; auto). rewrite Ht. reflexivity.
+    + split; [discriminate|]. intros [_ [sz [d [Hs _]]]]. discriminate.
+  - (* DOctets *) destruct ((v =? 0) && negb (ao_zero_length_strings o)).
+    + split; [discriminate|]. intros [_ [Hz _]]. discriminate.
+    + split.
+      * destruct (atake_o l (v * c)) as [[d r0]|e] eqn:Ht; [|discriminate]. intro H; inversion H; subst.
+        atake_fwd Ht. split; [reflexivity|]. split; [reflexivity|]. eauto.
+      * intros [Hl [_ [d [Hp Hn]]]]. subst. cbn [apayload_bytes].
+        assert (Ht : atake_o (d ++ r) (v * c) = AOk (d, r)) by (apply atake_o_iff; auto). rewrite Ht. reflexivity.
+  - (* DAttr *) destruct (255 <? s) eqn:Hs.
+    + apply N.ltb_lt in Hs. split; [discriminate|]. intros [_ [Hle _]]. lia.
+    + apply N.ltb_ge in Hs. destruct (negb (c =? 1)) eqn:Hc.
+      * apply negb_true_iff in Hc. apply N.eqb_neq in Hc. split; [discriminate|]. intros [_ [_ [Hc1 _]]]. contradiction.
+      * apply negb_false_iff in Hc. apply N.eqb_eq in Hc. split.
+        -- destruct (aparse_attr_value l) as [[val r0]|e] eqn:Hp; [|discriminate]. intro H; inversion H; subst.
+           apply aparse_attr_value_stable in Hp. destruct Hp as [raw [Hl Hst]]. subst l.
+           cbn [apayload_bytes aa_raw]. rewrite afirstn_consumed. split; [reflexivity|].
+           split; [assumption|]. split; [reflexivity|]. eexists. split; [reflexivity|].
+           cbn [aa_set aa_var]. split; [reflexivity|]. split; [reflexivity|].
+           unfold aattr_wf. cbn [aa_raw aa_value]. exact Hst.
+        -- intros [Hl [_ [_ [a [Hp [Hset [Hvar Hwf]]]]]]]. subst p. cbn [apayload_bytes] in Hl. subst l.
+           rewrite (Hwf r). rewrite afirstn_consumed. destruct a as [st vr vl rw]. cbn in *. subst. reflexivity.
+  - (* DFree *) split; [discriminate|]. intros [_ []].
+  - split; [discriminate|]. intros [_ []].
+Qed.
+
+Lemma aparse_count_iff g v q c l p r :
+  aparse_count g v q c l = AOk (p, r) <-> l = apayload_bytes p ++ r /\ acount_wf g v c p.
+Proof.
+  unfold aparse_count, acount_wf.
+  destruct (aqkind qt_count g v) as [[| | | | | |]|]; try (split; [discriminate|intros [_ []]]).
+  - split.
+    + intro H; inversion H; subst. split; reflexivity.
+    + intros [Hl Hp]. subst. reflexivity.
+  - destruct (asize g v) as [sz|].
+    + split.
+      * destruct (atake_o l (sz * c)) as [[d r0]|e] eqn:Ht; [|discriminate]. intro H; inversion H; subst.
+        atake_fwd Ht. split; [reflexivity|]. eauto.
+      * intros [Hl [sz' [d [Hs [Hp Hn]]]]]. inversion Hs; subst. cbn [apayload_bytes].
+        assert (Ht : atake_o (d ++ r) (sz' * c) = AOk (d, r)) by (apply atake_o_iff; auto). rewrite Ht. reflexivity.
+    + split; [discriminate|]. intros [_ [sz [d [Hs _]]]]. discriminate.
+Qed.
+
+Lemma ale_bytes_1 x : x < 256 -> ale_bytes (N.to_nat 1) x = [x].
+Proof. intro H. change (N.to_nat 1) with 1%nat. cbn [ale_bytes]. rewrite N.mod_small by assumption. reflexivity. Qed.
+
+Definition aindex_bytes (psize : N) (p : apayload) : list N :=
+  match p with PyAttr a => ale_bytes (N.to_nat psize) (aa_set a) | _ => [] end.
+
+Lemma aparse_prefixed_iff o g v q psize c l p r : psize = 1 \/ psize = 2 -> abytes_ok l ->
+  (aparse_prefixed o g v q psize c l = AOk (p, r)
+   <-> l = aindex_bytes psize p ++ apayload_bytes p ++ r /\ aprefixed_wf o g v psize c p).
+Proof.
+  intros Hps Hb. unfold aparse_prefixed, aprefixed_wf.
+  destruct (aqkind qt_prefix g v) as [[| | | | | |]|]; try (split; [discriminate|intros [_ []]]).
+  - (* DFixed *) destruct (asize g v) as [sz|].
+    + split.
+      * destruct (atake_o l ((psize + sz) * c)) as [[d r0]|e] eqn:Ht; [|discriminate]. intro H; inversion H; subst.
+        atake_fwd Ht. split; [reflexivity|]. eauto.
+      * intros [Hl [sz' [d [Hs [Hp Hn]]]]]. inversion Hs; subst. cbn [apayload_bytes aindex_bytes app].
+        assert (Ht : atake_o (d ++ r) ((psize + sz') * c) = AOk (d, r)) by (apply atake_o_iff; auto). rewrite Ht. reflexivity.
+    + split; [discriminate|]. intros [_ [sz [d [Hs _]]]]. discriminate.
+  - (* DOctets *) destruct ((v =? 0) && negb (ao_zero_length_strings o)).
+    + split; [discriminate|]. intros [_ [Hz _]]. discriminate.
+    + split.
+      * destruct (atake_o l ((v + psize) * c)) as [[d r0]|e] eqn:Ht; [|discriminate]. intro H; inversion H; subst.
+        atake_fwd Ht. split; [reflexivity|]. split; [reflexivity|]. eauto.
+      * intros [Hl [_ [d [Hp Hn]]]]. subst. cbn [apayload_bytes aindex_bytes app].
+        assert (Ht : atake_o (d ++ r) ((v + psize) * c) = AOk (d, r)) by (apply atake_o_iff; auto). rewrite Ht. reflexivity.
+  - (* DAttr *) destruct (negb (c =? 1)) eqn:Hc.
+    + apply negb_true_iff in Hc. apply N.eqb_neq in Hc. split; [discriminate|]. intros [_ [Hc1 _]]. contradiction.
+    + apply negb_false_iff in Hc. apply N.eqb_eq in Hc. split.
+      * unfold aread_field. destruct (atake l psize) as [[bs l1]|] eqn:Ht; [|discriminate].
+        apply atake_sound in Ht. destruct Ht as [Hl Hn]. subst l. apply abytes_ok_app in Hb. destruct Hb as [Hbs Hb1].
+        destruct (255 <? ale_val bs) eqn:Hs; [discriminate|]. apply N.ltb_ge in Hs.
+        destruct (aparse_attr_value l1) as [[val r0]|e] eqn:Hp; [|discriminate]. intro H; inversion H; subst.
+        apply aparse_attr_value_stable in Hp. destruct Hp as [raw [Hl Hst]]. subst l1.
+        cbn [apayload_bytes aindex_bytes aa_raw aa_set]. rewrite afirstn_consumed. split.
+        -- rewrite Nat2N.id. rewrite ale_bytes_val by assumption. reflexivity.
+        -- split; [reflexivity|]. eexists. split; [reflexivity|]. cbn [aa_set aa_var].
+           split; [assumption|]. split; [reflexivity|]. unfold aattr_wf. cbn [aa_raw aa_value]. exact Hst.
+      * intros [Hl [_ [a [Hp [Hset [Hvar Hwf]]]]]]. subst p. cbn [apayload_bytes aindex_bytes] in Hl. subst l.
+        unfold aread_field.
+        assert (Ht : atake (ale_bytes (N.to_nat psize) (aa_set a) ++ aa_raw a ++ r) psize
+                     = Some (ale_bytes (N.to_nat psize) (aa_set a), aa_raw a ++ r)).
+        { apply atake_iff. split; [reflexivity|]. rewrite ale_bytes_length. lia. }
+        rewrite Ht. rewrite ale_val_bytes.
+        -- assert (Hs : (255 <? aa_set a) = false) by (apply N.ltb_ge; assumption). rewrite Hs.
+           rewrite (Hwf r). rewrite afirstn_consumed. destruct a as [st vr vl rw]. cbn in *. subst. reflexivity.
+        -- rewrite N2Nat.id. destruct Hps as [E|E]; rewrite E; cbn; lia.
+Qed.
+
+(* what parse_one does for each qualifier code (the constants are compared by computation) *)
+Lemma aparse_one_lookup_fail o fc g v l0 : alookup g v = false -> aparse_one o fc (g :: v :: l0) = AErr (OEUnknownGV g v).
+Proof. intro H. cbn [aparse_one]. rewrite H. reflexivity. Qed.
+
+Definition amk (g v : N) (d : ahdetails) (p : apayload) : aobj_header :=
+  {| oh_g := g; oh_v := v; oh_details := d; oh_payload := p |}.
+
+Lemma abytes_ok_cons x l : abytes_ok (x :: l) <-> x < 256 /\ abytes_ok l.
+Proof. unfold abytes_ok. split; [intro H; inversion H; auto|intros [? ?]; constructor; auto]. Qed.
+
+Lemma ale16_bytes lo hi : lo < 256 -> hi < 256 -> lo8 (le16 lo hi) = lo /\ hi8 (le16 lo hi) = hi /\ le16 lo hi < 65536.
+Proof. intros. split; [apply lo8_le16; assumption|]. split; [apply hi8_le16; assumption|apply le16_bound; assumption]. Qed.
+
+Lemma ard16_some l x r : abytes_ok l -> ard16 l = Some (x, r) -> l = lo8 x :: hi8 x :: r /\ x < 65536 /\ abytes_ok r.
+Proof.
+  intros Hb H. destruct l as [|lo [|hi l']]; try discriminate. cbn [ard16] in H. inversion H; subst.
+  apply abytes_ok_cons in Hb. destruct Hb as [Hlo Hb]. apply abytes_ok_cons in Hb. destruct Hb as [Hhi Hb].
+  destruct (ale16_bytes lo hi Hlo Hhi) as [E1 [E2 E3]]. rewrite E1, E2. auto.
+Qed.
+
+Lemma ard16_enc x r : x < 65536 -> ard16 (lo8 x :: hi8 x :: r) = Some (x, r).
+Proof. intro H. cbn [ard16]. rewrite le16_lo_hi by assumption. reflexivity. Qed.
+
+Lemma amk_range_some a b s c : amk_range a b = Some (s, c) <-> a <= b /\ s = a /\ c = b - a + 1.
+Proof.
+  unfold amk_range. destruct (b <? a) eqn:H; [apply N.ltb_lt in H|apply N.ltb_ge in H].
+  - split; [discriminate|]. intros [? _]. lia.
+  - split; [intro E; inversion E; subst; repeat split; lia|]. intros [_ [? ?]]. subst. reflexivity.
+Qed.
+
+(* P1 accept_iff_exact_bytes, one header: ObjectParser::parse_one accepts exactly the byte strings that
+   begin with the encoding of a header the generated tables allow (known group/variation, a qualifier the
+   variation may be used with for this function code, a valid range or count) followed by exactly the
+   number of object bytes that variation, qualifier and count or range demand (SIZE*count, ceil(count/8),
+   ceil(count/4), (n+prefix)*count, one attribute, the declared free-format length; nothing for READ
+   ranges) — and it returns that header and everything after it untouched *)
+Theorem accept_iff_exact_bytes_header : forall o fc l h rest, abytes_ok l ->
+  (aparse_one o fc l = AOk (h, rest) <-> l = aencode_header h ++ rest /\ awf_header o fc h).
+Proof.
+  intros o fc l h rest Hb. split.
+  - (* soundness *)
+    intro H. unfold aparse_one in H. destruct l as [|g [|v l0]]; try discriminate.
+    destruct (negb (alookup g v)) eqn:Hlk; [discriminate|]. apply negb_false_iff in Hlk.
+    destruct l0 as [|q l1]; [discriminate|].
+    apply abytes_ok_cons in Hb. destruct Hb as [_ Hb]. apply abytes_ok_cons in Hb. destruct Hb as [_ Hb].
+    apply abytes_ok_cons in Hb. destruct Hb as [_ Hb].
+    destruct (q =? q_all_objects) eqn:Q1.
+    { apply N.eqb_eq in Q1. subst q. destruct (aqkind qt_all g v) as [k|] eqn:Hk; [|discriminate].
+      inversion H; subst. unfold aencode_header, awf_header. cbn. split; [reflexivity|].
+      split; [assumption|]. split; [congruence|reflexivity]. }
+    destruct (q =? q_range8) eqn:Q2.
+    { apply N.eqb_eq in Q2. subst q. destruct l1 as [|a [|b l2]]; try discriminate.
+      apply abytes_ok_cons in Hb. destruct Hb as [Ha Hb]. apply abytes_ok_cons in Hb. destruct Hb as [Hb' Hb].
+      destruct (amk_range a b) as [[s c]|] eqn:Hr; [|discriminate]. apply amk_range_some in Hr. destruct Hr as [Hab [Hs Hc]]. subst s c.
+      destruct (aparse_ranged o fc g v q_range8 a (b - a + 1) l2) as [[p r]|e] eqn:Hp; [|discriminate].
+      inversion H; subst. apply aparse_ranged_iff in Hp. destruct Hp as [Hl Hw]. subst l2.
+      unfold aencode_header, awf_header. cbn. split; [reflexivity|]. auto. }
+    destruct (q =? q_range16) eqn:Q3.
+    { apply N.eqb_eq in Q3. subst q. destruct (ard16 l1) as [[a l2]|] eqn:Ha; [|discriminate].
+      apply (ard16_some _ _ _ Hb) in Ha. destruct Ha as [E1 [Ha Hb2]]. subst l1.
+      destruct (ard16 l2) as [[b l3]|] eqn:Hb3; [|discriminate].
+      apply (ard16_some _ _ _ Hb2) in Hb3. destruct Hb3 as [E2 [Hb' Hb4]]. subst l2.
+      destruct (amk_range a b) as [[s c]|] eqn:Hr; [|discriminate]. apply amk_range_some in Hr. destruct Hr as [Hab [Hs Hc]]. subst s c.
+      destruct (aparse_ranged o fc g v q_range16 a (b - a + 1) l3) as [[p r]|e] eqn:Hp; [|discriminate].
+      inversion H; subst. apply aparse_ranged_iff in Hp. destruct Hp as [Hl Hw]. subst l3.
+      unfold aencode_header, awf_header. cbn. split; [reflexivity|]. auto. }
+    destruct (q =? q_count8) eqn:Q4.
+    { apply N.eqb_eq in Q4. subst q. destruct l1 as [|c l2]; [discriminate|].
+      apply abytes_ok_cons in Hb. destruct Hb as [Hc Hb].
+      destruct (aparse_count g v q_count8 c l2) as [[p r]|e] eqn:Hp; [|discriminate].
+      inversion H; subst. apply aparse_count_iff in Hp. destruct Hp as [Hl Hw]. subst l2.
+      unfold aencode_header, awf_header. cbn. split; [reflexivity|]. auto. }
+    destruct (q =? q_count16) eqn:Q5.
+    { apply N.eqb_eq in Q5. subst q. destruct (ard16 l1) as [[c l2]|] eqn:Hc; [|discriminate].
+      apply (ard16_some _ _ _ Hb) in Hc. destruct Hc as [E1 [Hc Hb2]]. subst l1.
+      destruct (aparse_count g v q_count16 c l2) as [[p r]|e] eqn:Hp; [|discriminate].
+      inversion H; subst. apply aparse_count_iff in Hp. destruct Hp as [Hl Hw]. subst l2.
+      unfold aencode_header, awf_header. cbn. split; [reflexivity|]. auto. }
+    destruct (q =? q_count_and_prefix8) eqn:Q6.
+    { apply N.eqb_eq in Q6. subst q. destruct l1 as [|c l2]; [discriminate|].
+      apply abytes_ok_cons in Hb. destruct Hb as [Hc Hb].
+      destruct (aparse_prefixed o g v q_count_and_prefix8 1 c l2) as [[p r]|e] eqn:Hp; [|discriminate].
+      inversion H; subst. apply aparse_prefixed_iff in Hp; [|left; reflexivity|assumption]. destruct Hp as [Hl Hw]. subst l2.
+      unfold aencode_header, awf_header. cbn [oh_g oh_v oh_details oh_payload aqualifier adetail_bytes].
+      split; [|auto]. unfold aprefixed_wf in Hw. unfold aindex_bytes.
+      destruct p; try reflexivity. destruct (aqkind qt_prefix g v) as [[| | | | | |]|]; try contradiction;
+        try (destruct Hw as [? [? [? [? _]]]]; discriminate); try (destruct Hw as [_ [? [? _]]]; discriminate).
+      destruct Hw as [_ [a' [Ea [Hset _]]]]. inversion Ea; subst a'.
+      rewrite ale_bytes_1 by lia. reflexivity. }
+    destruct (q =? q_count_and_prefix16) eqn:Q7.
+    { apply N.eqb_eq in Q7. subst q. destruct (ard16 l1) as [[c l2]|] eqn:Hc; [|discriminate].
+      apply (ard16_some _ _ _ Hb) in Hc. destruct Hc as [E1 [Hc Hb2]]. subst l1.
+      destruct (aparse_prefixed o g v q_count_and_prefix16 2 c l2) as [[p r]|e] eqn:Hp; [|discriminate].
+      inversion H; subst. apply aparse_prefixed_iff in Hp; [|right; reflexivity|assumption]. destruct Hp as [Hl Hw]. subst l2.
+      unfold aencode_header, awf_header. cbn [oh_g oh_v oh_details oh_payload aqualifier adetail_bytes].
+      split; [|auto]. unfold aindex_bytes. destruct p; reflexivity. }
+    destruct (q =? q_free_format16) eqn:Q8; [|discriminate].
+    apply N.eqb_eq in Q8. subst q. destruct l1 as [|c l2]; [discriminate|].
+    apply abytes_ok_cons in Hb. destruct Hb as [Hc Hb].
+    destruct (negb (c =? 1)) eqn:Hc1; [discriminate|]. apply negb_false_iff in Hc1. apply N.eqb_eq in Hc1.
+    destruct (ard16 l2) as [[len l3]|] eqn:Hlen; [|discriminate].
+    apply (ard16_some _ _ _ Hb) in Hlen. destruct Hlen as [E1 [Hlen Hb2]]. subst l2.
+    destruct (atake_o l3 len) as [[raw r]|e] eqn:Ht; [|discriminate]. atake_fwd Ht.
+    destruct (aqkind qt_free g v) as [[| | | | | |]|] eqn:Hk; try discriminate.
+    destruct (aparse_free v raw) as [[info [|x xs]]|e] eqn:Hf; try discriminate.
+    inversion H; subst. unfold aencode_header, awf_header. cbn. split; [reflexivity|].
+    split; [assumption|]. split; [reflexivity|]. split; [assumption|]. do 3 eexists. split; [reflexivity|]. auto.
+  - (* completeness *)
+    intros [Hl Hw]. subst l. destruct h as [g v d p]. unfold awf_header in Hw. cbn [oh_g oh_v oh_details oh_payload] in Hw.
+    destruct Hw as [Hlk Hw]. unfold aencode_header. cbn [oh_g oh_v oh_details oh_payload].
+    destruct d as [|a b|a b|c|c|c|c|c]; cbn [aqualifier adetail_bytes].
+    + destruct Hw as [Hk Hp]. subst p. cbn. rewrite Hlk. cbn. destruct (aqkind qt_all g v); [reflexivity|contradiction].
+    + destruct Hw as [Hab [Hb256 Hw]]. cbn [app]. unfold aparse_one. rewrite Hlk. cbn [negb].
+      change (q_range8 =? q_all_objects) with false. change (q_range8 =? q_range8) with true. cbn iota.
+      assert (Hr : amk_range a b = Some (a, b - a + 1)) by (apply amk_range_some; auto). rewrite Hr.
+      assert (Hp : aparse_ranged o fc g v q_range8 a (b - a + 1) (apayload_bytes p ++ rest) = AOk (p, rest))
+        by (apply aparse_ranged_iff; auto). rewrite Hp. reflexivity.
+    + destruct Hw as [Hab [Hb65 Hw]]. cbn [app]. unfold aparse_one. rewrite Hlk. cbn [negb].
+      change (q_range16 =? q_all_objects) with false. change (q_range16 =? q_range8) with false.
+      change (q_range16 =? q_range16) with true. cbn iota.
+      rewrite ard16_enc by lia. rewrite ard16_enc by lia.
+      assert (Hr : amk_range a b = Some (a, b - a + 1)) by (apply amk_range_some; auto). rewrite Hr.
+      assert (Hp : aparse_ranged o fc g v q_range16 a (b - a + 1) (apayload_bytes p ++ rest) = AOk (p, rest))
+        by (apply aparse_ranged_iff; auto). rewrite Hp. reflexivity.
+    + destruct Hw as [Hc Hw]. cbn [app]. unfold aparse_one. rewrite Hlk. cbn [negb].
+      change (q_count8 =? q_all_objects) with false. change (q_count8 =? q_range8) with false.
+      change (q_count8 =? q_range16) with false. change (q_count8 =? q_count8) with true. cbn iota.
+      assert (Hp : aparse_count g v q_count8 c (apayload_bytes p ++ rest) = AOk (p, rest))
+        by (apply aparse_count_iff; auto). rewrite Hp. reflexivity.
+    + destruct Hw as [Hc Hw]. cbn [app]. unfold aparse_one. rewrite Hlk. cbn [negb].
+      change (q_count16 =? q_all_objects) with false. change (q_count16 =? q_range8) with false.
+      change (q_count16 =? q_range16) with false. change (q_count16 =? q_count8) with false.
+      change (q_count16 =? q_count16) with true. cbn iota. rewrite ard16_enc by assumption.
+      assert (Hp : aparse_count g v q_count16 c (apayload_bytes p ++ rest) = AOk (p, rest))
+        by (apply aparse_count_iff; auto). rewrite Hp. reflexivity.
+    + destruct Hw as [Hc Hw]. cbn [app]. unfold aparse_one. rewrite Hlk. cbn [negb].
+      change (q_count_and_prefix8 =? q_all_objects) with false. change (q_count_and_prefix8 =? q_range8) with false.
+      change (q_count_and_prefix8 =? q_range16) with false. change (q_count_and_prefix8 =? q_count8) with false.
+      change (q_count_and_prefix8 =? q_count16) with false. change (q_count_and_prefix8 =? q_count_and_prefix8) with true. cbn iota.
+      assert (Hp : forall l', abytes_ok [] -> l' = aindex_bytes 1 p ++ apayload_bytes p ++ rest ->
+                   aparse_prefixed o g v q_count_and_prefix8 1 c l' = AOk (p, rest)).
+      { intros l' _ El. unfold aparse_prefixed. unfold aprefixed_wf in Hw. subst l'.
+        destruct (aqkind qt_prefix g v) as [[| | | | | |]|]; try contradiction.
+        - destruct Hw as [sz [dd [Hs [Hp Hn]]]]. subst p. rewrite Hs. cbn [aindex_bytes apayload_bytes app].
+          assert (Ht : atake_o (dd ++ rest) ((1 + sz) * c) = AOk (dd, rest)) by (apply atake_o_iff; auto). rewrite Ht. reflexivity.
+        - destruct Hw as [Hz [dd [Hp Hn]]]. subst p. rewrite Hz. cbn [aindex_bytes apayload_bytes app].
+          assert (Ht : atake_o (dd ++ rest) ((v + 1) * c) = AOk (dd, rest)) by (apply atake_o_iff; auto). rewrite Ht. reflexivity.
+        - destruct Hw as [Hc1 [a [Hp [Hset [Hvar Hwf]]]]]. subst p c. cbn [N.eqb Pos.eqb negb aindex_bytes apayload_bytes].
+          unfold aread_field.
+          assert (Ht : atake (ale_bytes (N.to_nat 1) (aa_set a) ++ aa_raw a ++ rest) 1
+                       = Some (ale_bytes (N.to_nat 1) (aa_set a), aa_raw a ++ rest)).
+          { apply atake_iff. split; [reflexivity|]. rewrite ale_bytes_length. reflexivity. }
+          rewrite Ht. rewrite ale_val_bytes by (cbn; lia).
+          assert (Hs : (255 <? aa_set a) = false) by (apply N.ltb_ge; assumption). rewrite Hs.
+          rewrite (Hwf rest). rewrite afirstn_consumed. destruct a as [st vr vl rw]. cbn in *. subst. reflexivity. }
+      assert (Hd : match p with PyAttr a => [aa_set a] | _ => [] end = aindex_bytes 1 p).
+      { unfold aindex_bytes. destruct p; try reflexivity. unfold aprefixed_wf in Hw.
+        destruct (aqkind qt_prefix g v) as [[| | | | | |]|]; try contradiction;
+          try (destruct Hw as [? [? [? [? _]]]]; discriminate); try (destruct Hw as [_ [? [? _]]]; discriminate).
+        destruct Hw as [_ [a' [Ea [Hset _]]]]. inversion Ea; subst a'.
+        rewrite ale_bytes_1 by lia. reflexivity. }
+      rewrite Hd. rewrite <- app_assoc. rewrite (Hp _ (Forall_nil _) eq_refl). reflexivity.
+    + destruct Hw as [Hc Hw]. cbn [app]. unfold aparse_one. rewrite Hlk. cbn [negb].
+      change (q_count_and_prefix16 =? q_all_objects) with false. change (q_count_and_prefix16 =? q_range8) with false.
+      change (q_count_and_prefix16 =? q_range16) with false. change (q_count_and_prefix16 =? q_count8) with false.
+      change (q_count_and_prefix16 =? q_count16) with false. change (q_count_and_prefix16 =? q_count_and_prefix8) with false.
+      change (q_count_and_prefix16 =? q_count_and_prefix16) with true. cbn iota. rewrite ard16_enc by assumption.
+      assert (Hd : match p with PyAttr a => [lo8 (aa_set a); hi8 (aa_set a)] | _ => [] end = aindex_bytes 2 p).
+      { unfold aindex_bytes. destruct p; reflexivity. }
+      rewrite Hd. rewrite <- app_assoc.
+      assert (Hp : aparse_prefixed o g v q_count_and_prefix16 2 c (aindex_bytes 2 p ++ apayload_bytes p ++ rest) = AOk (p, rest)).
+      { unfold aparse_prefixed. unfold aprefixed_wf in Hw.
+        destruct (aqkind qt_prefix g v) as [[| | | | | |]|]; try contradiction.
+        - destruct Hw as [sz [dd [Hs [Hp Hn]]]]. subst p. rewrite Hs. cbn [aindex_bytes apayload_bytes app].
+          assert (Ht : atake_o (dd ++ rest) ((2 + sz) * c) = AOk (dd, rest)) by (apply atake_o_iff; auto). rewrite Ht. reflexivity.
+        - destruct Hw as [Hz [dd [Hp Hn]]]. subst p. rewrite Hz. cbn [aindex_bytes apayload_bytes app].
+          assert (Ht : atake_o (dd ++ rest) ((v + 2) * c) = AOk (dd, rest)) by (apply atake_o_iff; auto). rewrite Ht. reflexivity.
+        - destruct Hw as [Hc1 [a [Hp [Hset [Hvar Hwf]]]]]. subst p c. cbn [N.eqb Pos.eqb negb aindex_bytes apayload_bytes].
+          unfold aread_field.
+          assert (Ht : atake (ale_bytes (N.to_nat 2) (aa_set a) ++ aa_raw a ++ rest) 2
+                       = Some (ale_bytes (N.to_nat 2) (aa_set a), aa_raw a ++ rest)).
+          { apply atake_iff. split; [reflexivity|]. rewrite ale_bytes_length. reflexivity. }
+          rewrite Ht. rewrite ale_val_bytes by (cbn; lia).
+          assert (Hs : (255 <? aa_set a) = false) by (apply N.ltb_ge; assumption). rewrite Hs.
+          rewrite (Hwf rest). rewrite afirstn_consumed. destruct a as [st vr vl rw]. cbn in *. subst. reflexivity. }
+      rewrite Hp. reflexivity.
+    + destruct Hw as [Hc [Hk [len [raw [info [Hp [Hlen [Hraw Hf]]]]]]]]. subst p c. cbn [app apayload_bytes].
+      unfold aparse_one. rewrite Hlk. cbn [negb].
+      change (q_free_format16 =? q_all_objects) with false. change (q_free_format16 =? q_range8) with false.
+      change (q_free_format16 =? q_range16) with false. change (q_free_format16 =? q_count8) with false.
+      change (q_free_format16 =? q_count16) with false. change (q_free_format16 =? q_count_and_prefix8) with false.
+      change (q_free_format16 =? q_count_and_prefix16) with false. change (q_free_format16 =? q_free_format16) with true. cbn iota.
+      cbn [N.eqb Pos.eqb negb]. rewrite ard16_enc by assumption.
+      assert (Ht : atake_o (raw ++ rest) len = AOk (raw, rest)) by (apply atake_o_iff; auto). rewrite Ht.
+      rewrite Hk, Hf. reflexivity.
+Qed.
+
+(* ---------------------------------------------------------------------------------------------- *)
+(* Part 4: fragments — the validating first pass and the iterating second pass                      *)
+
+Lemma aencode_header_length h : (3 <= length (aencode_header h))%nat.
+Proof. unfold aencode_header. cbn [length]. lia. Qed.
+
+Lemma afirst_err_none rs : afirst_err rs = None <-> rs = map AOk (aok_prefix rs).
+Proof.
+  induction rs as [|[h|e] rs IH]; cbn [afirst_err aok_prefix map].
+  - split; reflexivity.
+  - rewrite IH. split; [intro H; f_equal; exact H|intro H; inversion H as [H1]; rewrite <- H1; exact H1].
+  - split; discriminate.
+Qed.
+
+Lemma aok_prefix_map hs : aok_prefix (map AOk hs) = hs.
+Proof. induction hs as [|h hs IH]; cbn [map aok_prefix]; [reflexivity|rewrite IH; reflexivity]. Qed.
+
+Section Fragment.
+Variable o : aopts.
+Variable fc : N.
+
+(* the ObjectParser iterator yields exactly the headers hs, no error, iff the data is the concatenation of
+   their encodings and each is well-formed *)
+Lemma aone_pass_iff : forall hs fuel l, abytes_ok l -> (length l <= fuel)%nat ->
+  (aone_pass fuel o fc l = map AOk hs
+   <-> l = concat (map aencode_header hs) /\ Forall (awf_header o fc) hs).
+Proof.
+  induction hs as [|h hs IH]; intros fuel l Hb Hf.
+  - cbn [map concat]. split.
+    + intro H. destruct fuel as [|f]; [destruct l; [auto|cbn in Hf; lia]|].
+      cbn [aone_pass] in H. destruct l as [|x l']; [auto|].
+      destruct (aparse_one o fc (x :: l')) as [[h r]|e]; discriminate.
+    + intros [Hl _]. subst l. destruct fuel; reflexivity.
+  - cbn [map concat]. split.
+    + intro H. destruct fuel as [|f]; [discriminate|]. cbn [aone_pass] in H.
+      destruct l as [|x l']; [discriminate|].
+      destruct (aparse_one o fc (x :: l')) as [[h' r]|e] eqn:Hp; [|discriminate].
+      inversion H as [[Hh Hr]]. subst h'.
+      apply (accept_iff_exact_bytes_header o fc _ h r Hb) in Hp. destruct Hp as [Hl Hw].
+      assert (Hbr : abytes_ok r) by (rewrite Hl in Hb; apply abytes_ok_app in Hb; tauto).
+      assert (Hfr : (length r <= f)%nat).
+      { rewrite Hl in Hf. rewrite app_length in Hf. pose proof (aencode_header_length h). lia. }
+      destruct (proj1 (IH f r Hbr Hfr) Hr) as [Er Hws]. split.
+      * rewrite Hl, Er. reflexivity.
+      * constructor; assumption.
+    + intros [Hl Hws]. inversion Hws as [|? ? Hw Hws']; subst.
+      pose proof (aencode_header_length h) as H3.
+      destruct fuel as [|f]; [rewrite app_length in Hf; lia|]. cbn [aone_pass].
+      destruct (aencode_header h ++ concat (map aencode_header hs)) as [|x l'] eqn:El;
+        [apply (f_equal (@length N)) in El; rewrite app_length in El; cbn in El; lia|].
+      rewrite <- El in *.
+      assert (Hp : aparse_one o fc (aencode_header h ++ concat (map aencode_header hs)) = AOk (h, concat (map aencode_header hs)))
+        by (apply accept_iff_exact_bytes_header; auto).
+      rewrite Hp. f_equal. apply IH.
+      * apply abytes_ok_app in Hb. tauto.
+      * rewrite app_length in Hf. lia.
+      * auto.
+Qed.
+
+(* P1 accept_iff_exact_bytes, whole fragment: the first pass accepts the object data of a fragment iff it
+   is a concatenation of exactly-encoded, well-formed headers with every byte consumed; the second pass
+   (HeaderCollection::iter) then yields precisely those headers *)
+Theorem accept_iff_exact_bytes_fragment : forall l hs, abytes_ok l ->
+  ((exists c, avalidate o fc l = AOk c /\ aiter_headers c = hs)
+   <-> l = concat (map aencode_header hs) /\ Forall (awf_header o fc) hs).
+Proof.
+  intros l hs Hb. unfold avalidate, aiter_headers. split.
+  - intros [c [Hv Hi]]. destruct (afirst_err (aone_pass (length l) o fc l)) as [e|] eqn:He; [discriminate|].
+    inversion Hv; subst c. cbn [hc_data hc_opts hc_function] in Hi.
+    apply afirst_err_none in He. rewrite Hi in He. apply (aone_pass_iff hs (length l) l Hb (le_n _)) in He. exact He.
+  - intro H. apply (aone_pass_iff hs (length l) l Hb (le_n _)) in H.
+    rewrite H. assert (He : afirst_err (map AOk hs) = None).
+    { apply afirst_err_none. rewrite aok_prefix_map. reflexivity. }
+    rewrite He. eexists. split; [reflexivity|]. cbn [hc_data hc_opts hc_function]. rewrite H. apply aok_prefix_map.
+Qed.
+
+(* the second pass sees what the first pass saw: after a successful validation the iterator never meets
+   an error (the `Some(Err(_)) => None` arm of HeaderIterator::next is dead) *)
+Theorem second_pass_agrees_with_first : forall l c, avalidate o fc l = AOk c ->
+  aone_pass (length l) o fc l = map AOk (aiter_headers c).
+Proof.
+  intros l c Hv. unfold avalidate in Hv. destruct (afirst_err (aone_pass (length l) o fc l)) as [e|] eqn:He; [discriminate|].
+  inversion Hv; subst c. unfold aiter_headers. cbn [hc_data hc_opts hc_function]. apply afirst_err_none. exact He.
+Qed.
+
+End Fragment.
